@@ -394,6 +394,47 @@ def cmd_report():
                                                              s.get('note', '')))
 
 
+def cmd_report_md():
+    import collections
+    allm = {m['id']: m for m in json.load(open(os.path.join(OUT, 'mutants.json')))}
+    st = load_state()
+    dp = json.load(open(os.path.join(OUT, 'diffprobe.json'))) if os.path.exists(os.path.join(OUT, 'diffprobe.json')) else {}
+    tests = collections.Counter(v['tests'] for v in st.values())
+    surv = {k: v for k, v in st.items() if v['tests'] == 'survives' and not allm[int(k)].get('obsolete')}
+    verd = collections.Counter(v.get('verdict') for v in surv.values())
+    nb = next(iter(dp.values()))['outcomes'] if dp else 0
+    L = ['# First-order mutation sampling (tools/automutate.py, tools/diffprobe.py)', '',
+         'Generated by `tools/automutate.py report-md` from `audit/auto/state.json` and `audit/auto/diffprobe.json`.', '',
+         '* candidates (comparison / boolean / constant / condition / arithmetic mutations; deletions of single characters from regex literals, '
+         'quantifier / lookaround swaps in them; deletion of statements and `raise`s; `return self` in builder methods) in `core/*.py`, `meta/essentials.py`: **%d**' % len(allm),
+         "* killed by the repository's own 689 unit tests: **%d**; test run timed out: %d; **test-surviving: %d** (%d more became obsolete when late fixes rewrote their lines)" % (
+             tests['killed-by-tests'], tests['timeout'], len(surv), tests['survives'] - len(surv)),
+         '* of the survivors: **caught by a quick check responsible for the mutated code: %d**; in code no property covers (Email, HttpUrl, print_pattern): %d; caught by no check: %d' % (
+             verd['caught'], verd['no-property'], verd['not-caught'] + verd.get('inconclusive', 0)),
+         '', '## Survivors that no check catches', '',
+         'Each went through the differential probe (one battery of %d public-API calls on the unchanged tree and on the mutant; outcome = emitted pattern or exception type; '
+         'differing patterns are compared by canonical parse tree, then by probe texts, character classes by their sets outside the shorthand-only code points). '
+         'Mutants of the matching API, which the battery does not exercise, are classified by hand.' % nb,
+         '', '| # | site | mutation | calls with a different language / exception type | classification |', '|---|---|---|---|---|']
+    for k, v in sorted(surv.items(), key=lambda kv: int(kv[0])):
+        if v.get('verdict') not in ('not-caught', 'inconclusive'):
+            continue
+        m = allm[int(k)]
+        nd = dp.get(k, {}).get('n_diff', {})
+        note = v.get('note') or ('equivalent: no call of the battery has a different outcome' if not nd.get('different') and not nd.get('same-language') else
+                                 'equivalent: emitted texts differ (%d calls) but denote the same language' % nd.get('same-language', 0) if not nd.get('different') else 'REVIEW')
+        L.append('| %s | %s:%d `%s` | %s `%s` -> `%s` | %s | %s |' % (k, m['file'].split('/')[-1], m['line'], m['func'], m['op'], m['old'][:40].replace('|', '\\|').replace('\n', ' '),
+                                                                  m['new'][:40].replace('|', '\\|'), nd.get('different', 0) if k in dp else 'n/a', note))
+    L += ['', '## Misses found by this sampling (caught now)', '']
+    for k, v in sorted(surv.items(), key=lambda kv: int(kv[0])):
+        if 'missed at first' in (v.get('note') or ''):
+            m = allm[int(k)]
+            L.append('* #%s %s:%d `%s` %s `%s` -> `%s`: %s (now: %s)' % (k, m['file'].split('/')[-1], m['line'], m['func'], m['op'], m['old'][:50], m['new'][:50], v['note'], v.get('verdict')))
+    open(os.path.join(OUT, 'REPORT.md'), 'w').write('\n'.join(L) + '\n')
+    print('\n'.join(L[:8]))
+    print(sum(1 for l in L if 'REVIEW' in l), 'rows to review')
+
+
 if __name__ == '__main__':
     cmd = sys.argv[1] if len(sys.argv) > 1 else 'report'
     if cmd == 'gen':
@@ -402,6 +443,8 @@ if __name__ == '__main__':
         cmd_survive(int(sys.argv[2]) if len(sys.argv) > 2 else 200, int(sys.argv[3]) if len(sys.argv) > 3 else 0)
     elif cmd == 'check':
         cmd_check(int(sys.argv[2]) if len(sys.argv) > 2 else 10)
+    elif cmd == 'report-md':
+        cmd_report_md()
     elif cmd == 'one':
         # tools/automutate.py one <id> <check>...   (re-run named checks on one mutant; result printed, state untouched)
         allm = {m['id']: m for m in json.load(open(os.path.join(OUT, 'mutants.json')))}
